@@ -320,7 +320,9 @@ func runC12(c *Ctx) {
 				if call.Call.IsInvoke() && call.Call.Method.Name() == "Mode" {
 					walk(call.Call.Value, d+1)
 				}
-				if n := calleeName(&call.Call); n == "os.Stat" || n == "os.Lstat" {
+				// os.Stat follows a symbolic link to the file being edited; os.Lstat
+				// would hand out the link's own mode (0777)
+				if n := calleeName(&call.Call); n == "os.Stat" || n == "(*os.File).Stat" {
 					ok = true
 				}
 			}
@@ -350,7 +352,7 @@ func runC12(c *Ctx) {
 	case nret == 0:
 		r.Fatal("anchor moved: no success return in CreateTempFile")
 	case missing != "":
-		r.Finding("W4", "CreateTempFile/chmod", missing, "a success return of CreateTempFile is reachable without os.Chmod(temp, Stat(target).Mode()): the edited file loses its permission bits")
+		r.Finding("W4", "CreateTempFile/chmod", missing, "a success return of CreateTempFile is reachable without os.Chmod(temp, m) where m is the Mode() of os.Stat(target) (not Lstat: for a symbolic link that is the link's 0777): the edited file does not keep its permission bits")
 	default:
 		r.Discharge("W4", "CreateTempFile/chmod", c.P.pos(ctf.Pos()), "every success return passes os.Chmod with the mode of os.Stat(target)")
 	}
